@@ -66,6 +66,43 @@ Theorem C18_http_total :
 Proof. exact http_total. Qed.
 Print Assumptions C18_http_total.
 
+(* ---- the control topic as a whole, with the handler's busy window (Model/AdminApi.v [tstep]).
+   FULL STATEMENT of the clause "every message arriving on the host's websocket control topic gets a reply",
+   over histories of arrivals [TArrive c] and of moments at which the handler is waiting again [TReady]:
+
+     forall dd ds api t evs, Forall (fun o => exists a, o = Some a /\ answered_with_json a)
+                                    (snd (trun dd ds api repaired t evs))
+
+   It does NOT hold on the code as it is (known finding F17, key
+   F17:pipelined-command-dropped-before-the-handler): internalAPI's Send channel is unbuffered and the hub
+   offers every message of the topic to it without waiting, so a command that arrives while the handler is
+   still busy with an earlier one is silently dropped - the message is on the topic (other subscribers see it)
+   and gets no reply.  Proved part, then the witness. *)
+
+(* every command the handler takes gets exactly one reply (one outcome per arrival), and it is valid JSON;
+   an arrival is either taken ([Some a]) or dropped ([None]) *)
+Theorem C18_command_taken_is_answered :
+  forall dd ds api evs t,
+    Forall (fun o => match o with
+                     | Some a => exists b, render repaired a = Some b /\ wf b = true
+                     | None => True
+                     end) (snd (trun dd ds api repaired t evs)).
+Proof. exact command_taken_is_answered. Qed.
+Print Assumptions C18_command_taken_is_answered.
+
+(* F17: two commands back to back; the second arrives while the handler is busy with the first: no reply.
+   (Reproduced on the real code by harness/cmd/c18, pipelined sessions: N commands back to back from one
+   controller on /ws/api, k < N replies.) *)
+Theorem C18_every_arriving_command_answered_refuted :
+  exists evs, forall dd ds api s,
+    In None (snd (trun dd ds api repaired (mkt s false) evs)) /\
+    length (filter (fun e => match e with TArrive _ => true | TReady => false end) evs) = 2.
+Proof.
+  exists [TArrive c_healthcheck; TArrive c_healthcheck; TReady]. intros dd ds api s.
+  rewrite (second_back_to_back_command_unanswered dd ds api s). split; [right; left; reflexivity|reflexivity].
+Qed.
+Print Assumptions C18_every_arriving_command_answered_refuted.
+
 (* ---- the tree before the repairs: each clause had a counterexample (replayed on the real code by
    harness/cmd/c18; the repairs are fixes/F11a, F11b, F11c) *)
 Theorem C18_admin_total_pinned_refuted :
